@@ -1,4 +1,5 @@
 import Qvnt.Props.C02
+import Qvnt.Props.Code.C02
 open Qvnt
 #print axioms C02_refuse
 #print axioms C02_single_refuse
@@ -15,3 +16,4 @@ open Qvnt
 #print axioms C02_block_closed
 #print axioms C02_spec
 #print axioms C02_spec_apply
+#print axioms C02_code_refuse
